@@ -21,3 +21,20 @@ package pogreb
 //@   ensures complete: forall i int :: 0 <= i && i < 32767 && dl.segments[i] != nil ==> exists q int :: off(segs) <= q && q < off(segs) + len(segs) && contents(segs)[q] == dl.segments[i]
 //@   ensures [C03] oldest-first: forall q1 int, q2 int :: off(segs) <= q1 && q1 < q2 && q2 < off(segs) + len(segs) ==> contents(segs)[q1].sequenceID <= contents(segs)[q2].sequenceID
 //@   ensures distinct: forall q1 int, q2 int :: off(segs) <= q1 && q1 < q2 && q2 < off(segs) + len(segs) ==> contents(segs)[q1] != contents(segs)[q2]
+
+// pickForCompaction: a segment that holds delete records is never picked on its own: segments are picked one by one
+// (newest first) only while they hold no delete records; the first eligible segment with delete records makes the
+// function return that segment together with EVERY older one (the whole prefix of the oldest-first listing) followed
+// by what was picked so far. Fragmentation is floating point and is not interpreted: both outcomes are explored.
+//@ func (db *DB) pickForCompaction() (segs []*segment) [C05]
+//@   requires inv: db != nil && db.opts != nil && db.datalog != nil && dlInv(db.datalog)
+//@   at return: assert [C05] delete-records-only-with-all-older: forall q int :: off(picked) <= q && q < off(picked) + len(picked) ==> contents(picked)[q].meta.DeleteRecords == 0
+//@   at return: assert [C05] older-prefix-whole: len(segs) == len(picked) || (0 <= i && i < len(segments) && len(segs) == i + 1 + len(picked) && forall q int :: 0 <= q && q <= i ==> segs[q] == segments[q])
+//@   modifies elems(*segment)
+//@   loop 1:
+//@     invariant -1 <= i && i < len(segments) && db == old(db)
+//@     invariant len(segments) >= 0 && len(segments) <= 32767 && len(picked) >= 0 && len(picked) <= len(segments) - 1 - i
+//@     invariant forall q int :: off(segments) <= q && q < off(segments) + len(segments) ==> contents(segments)[q] != nil && contents(segments)[q].id < 32767 && db.datalog.segments[contents(segments)[q].id] == contents(segments)[q]
+//@     invariant forall q int :: off(picked) <= q && q < off(picked) + len(picked) ==> contents(picked)[q] != nil && contents(picked)[q].id < 32767 && db.datalog.segments[contents(picked)[q].id] == contents(picked)[q] && contents(picked)[q].meta.DeleteRecords == 0
+//@     invariant (len(segments) == 0 || fresh(segments)) && ((arr(picked) == 0 && cap(picked) == 0) || fresh(picked)) && (arr(picked) == 0 || arr(picked) != arr(segments))
+//@     decreases i + 1
